@@ -448,6 +448,11 @@ func (self Reflect) create(t reflect.Type, m meta.Meta) reflect.Value {
 		switch x := m.(type) {
 		case *meta.List:
 			keyMeta := x.KeyMeta()
+			if len(keyMeta) != 1 {
+				// a map holds one entry per map key: with several key leaves (or none) entries
+				// that share the first would replace each other
+				return reflect.ValueOf(make([]interface{}, 0))
+			}
 			if len(keyMeta) == 1 {
 				// support some common key types, anything to unusual should have
 				// custom implementation and would default to map[interface{}]interface{}
